@@ -1,0 +1,41 @@
+// Verification hooks (compiled only with -DMUDUO_VERIF; see /verif/DESIGN.md section 3).
+//
+// One function pointer, null by default.  A verification harness may install a
+// function that is called at a few named points (between two steps of a protocol
+// whose interleaving with other threads matters), so that a deterministic scheduler
+// can choose and replay the interleaving.  Everything else a harness needs (system
+// call results, clocks, mutex / condition / thread primitives) is interposed at link
+// level and needs no source hook.  With the guard off this header defines only an
+// empty MUDUO_VERIF_POINT macro and nothing else changes.
+
+#ifndef MUDUO_BASE_VERIFHOOKS_H
+#define MUDUO_BASE_VERIFHOOKS_H
+
+#ifdef MUDUO_VERIF
+
+namespace muduo
+{
+namespace verif
+{
+
+typedef void (*PointHook)(const char* name, const void* obj);
+
+inline PointHook& pointHook()
+{
+  static PointHook hook = 0;
+  return hook;
+}
+
+}  // namespace verif
+}  // namespace muduo
+
+#define MUDUO_VERIF_POINT(name, obj) \
+  do { if (::muduo::verif::pointHook()) ::muduo::verif::pointHook()((name), (obj)); } while (0)
+
+#else  // !MUDUO_VERIF
+
+#define MUDUO_VERIF_POINT(name, obj) do { } while (0)
+
+#endif  // MUDUO_VERIF
+
+#endif  // MUDUO_BASE_VERIFHOOKS_H
